@@ -375,14 +375,15 @@ pub proof fn lemma_building_srv3(bcr: Map<Carrier, BalanceCarrier>, bcr2: Map<Ca
     lemma_field(bcr, bcr2, ord, hist, ord2, hist2, |b: Balance| mval3(srv3(b, step_a), s).co2, |r: BalanceCarrier| mval3(srv3c(r, step_a), s).co2, ct);
 }
 #[verifier::spinoff_prover]
-pub proof fn thm_building_cr(bcr: Map<Carrier, BalanceCarrier>, bcr2: Map<Carrier, BalanceCarrier>, ord: Seq<Carrier>, hist: Seq<Balance>, ord2: Seq<Carrier>, hist2: Seq<Balance>, ct: real)
+pub proof fn lemma_building_prod_by_cr(bcr: Map<Carrier, BalanceCarrier>, bcr2: Map<Carrier, BalanceCarrier>, ord: Seq<Carrier>, hist: Seq<Balance>, ord2: Seq<Carrier>, hist2: Seq<Balance>, ct: real)
     requires ct > 0real, bcr_rel(bcr, bcr2, ct), chain_of(bcr, ord, hist), chain_of(bcr2, ord2, hist2),
-    ensures bal_rel_cr(hist.last(), hist2.last(), ct),
+    ensures forall|k: Carrier| #[trigger] mval(hist2.last().prod.by_cr@, k) == ct * mval(hist.last().prod.by_cr@, k),
 {
+    let x = hist.last(); let y = hist2.last();
     lemma_chain_maps(bcr, ord, hist); lemma_chain_maps(bcr2, ord2, hist2);
     lemma_mul0(ct);
-    let x = hist.last(); let y = hist2.last();
     assert forall|c: Carrier| bcr.contains_key(c) implies annual_rel(run_of(#[trigger] bcr[c]), run_of(bcr2[c]), ct) && bcr[c].carrier == c && bcr2[c].carrier == c by {}
+
     assert forall|k: Carrier| #[trigger] mval(y.prod.by_cr@, k) == ct * mval(x.prod.by_cr@, k) by {
         let g = |r: BalanceCarrier| if rv(r.prod.an) != 0real && r.carrier == k { rv(r.prod.an) } else { 0real };
         assert forall|j: int| 0 <= j < ord.len() implies mval((#[trigger] hist[j + 1]).prod.by_cr@, k) == mval(hist[j].prod.by_cr@, k) + g(bcr[ord[j]]) by {
@@ -399,6 +400,17 @@ pub proof fn thm_building_cr(bcr: Map<Carrier, BalanceCarrier>, bcr2: Map<Carrie
         }
         lemma_field(bcr, bcr2, ord, hist, ord2, hist2, |b: Balance| mval(b.prod.by_cr@, k), g, ct);
     }
+}
+#[verifier::spinoff_prover]
+pub proof fn lemma_building_grid_by_cr(bcr: Map<Carrier, BalanceCarrier>, bcr2: Map<Carrier, BalanceCarrier>, ord: Seq<Carrier>, hist: Seq<Balance>, ord2: Seq<Carrier>, hist2: Seq<Balance>, ct: real)
+    requires ct > 0real, bcr_rel(bcr, bcr2, ct), chain_of(bcr, ord, hist), chain_of(bcr2, ord2, hist2),
+    ensures forall|k: Carrier| #[trigger] mval(hist2.last().del.grid_by_cr@, k) == ct * mval(hist.last().del.grid_by_cr@, k),
+{
+    let x = hist.last(); let y = hist2.last();
+    lemma_chain_maps(bcr, ord, hist); lemma_chain_maps(bcr2, ord2, hist2);
+    lemma_mul0(ct);
+    assert forall|c: Carrier| bcr.contains_key(c) implies annual_rel(run_of(#[trigger] bcr[c]), run_of(bcr2[c]), ct) && bcr[c].carrier == c && bcr2[c].carrier == c by {}
+
     assert forall|k: Carrier| #[trigger] mval(y.del.grid_by_cr@, k) == ct * mval(x.del.grid_by_cr@, k) by {
         let g = |r: BalanceCarrier| if rv(r.del.grid_an) != 0real && r.carrier == k { rv(r.del.grid_an) } else { 0real };
         assert forall|j: int| 0 <= j < ord.len() implies mval((#[trigger] hist[j + 1]).del.grid_by_cr@, k) == mval(hist[j].del.grid_by_cr@, k) + g(bcr[ord[j]]) by {
@@ -415,6 +427,17 @@ pub proof fn thm_building_cr(bcr: Map<Carrier, BalanceCarrier>, bcr2: Map<Carrie
         }
         lemma_field(bcr, bcr2, ord, hist, ord2, hist2, |b: Balance| mval(b.del.grid_by_cr@, k), g, ct);
     }
+}
+#[verifier::spinoff_prover]
+pub proof fn lemma_building_epus_by_cr(bcr: Map<Carrier, BalanceCarrier>, bcr2: Map<Carrier, BalanceCarrier>, ord: Seq<Carrier>, hist: Seq<Balance>, ord2: Seq<Carrier>, hist2: Seq<Balance>, ct: real)
+    requires ct > 0real, bcr_rel(bcr, bcr2, ct), chain_of(bcr, ord, hist), chain_of(bcr2, ord2, hist2),
+    ensures forall|k: Carrier| #[trigger] mval(hist2.last().used.epus_by_cr@, k) == ct * mval(hist.last().used.epus_by_cr@, k),
+{
+    let x = hist.last(); let y = hist2.last();
+    lemma_chain_maps(bcr, ord, hist); lemma_chain_maps(bcr2, ord2, hist2);
+    lemma_mul0(ct);
+    assert forall|c: Carrier| bcr.contains_key(c) implies annual_rel(run_of(#[trigger] bcr[c]), run_of(bcr2[c]), ct) && bcr[c].carrier == c && bcr2[c].carrier == c by {}
+
     assert forall|k: Carrier| #[trigger] mval(y.used.epus_by_cr@, k) == ct * mval(x.used.epus_by_cr@, k) by {
         let g = |r: BalanceCarrier| if rv(r.used.epus_an) != 0real && r.carrier == k { rv(r.used.epus_an) } else { 0real };
         assert forall|j: int| 0 <= j < ord.len() implies mval((#[trigger] hist[j + 1]).used.epus_by_cr@, k) == mval(hist[j].used.epus_by_cr@, k) + g(bcr[ord[j]]) by {
@@ -431,6 +454,14 @@ pub proof fn thm_building_cr(bcr: Map<Carrier, BalanceCarrier>, bcr2: Map<Carrie
         }
         lemma_field(bcr, bcr2, ord, hist, ord2, hist2, |b: Balance| mval(b.used.epus_by_cr@, k), g, ct);
     }
+}
+pub proof fn thm_building_cr(bcr: Map<Carrier, BalanceCarrier>, bcr2: Map<Carrier, BalanceCarrier>, ord: Seq<Carrier>, hist: Seq<Balance>, ord2: Seq<Carrier>, hist2: Seq<Balance>, ct: real)
+    requires ct > 0real, bcr_rel(bcr, bcr2, ct), chain_of(bcr, ord, hist), chain_of(bcr2, ord2, hist2),
+    ensures bal_rel_cr(hist.last(), hist2.last(), ct),
+{
+    lemma_building_prod_by_cr(bcr, bcr2, ord, hist, ord2, hist2, ct);
+    lemma_building_grid_by_cr(bcr, bcr2, ord, hist, ord2, hist2, ct);
+    lemma_building_epus_by_cr(bcr, bcr2, ord, hist, ord2, hist2, ct);
 }
 /// THE BUILDING THEOREM: two accumulations of per-carrier balances related by ct (visited in any two orders) give whole-building
 /// balances related by ct - totals, weighted energy at steps A and B, and the breakdowns by service, by source and by carrier
